@@ -21,6 +21,10 @@ def C05_full : Prop :=
 
 theorem frees_through_sync : dropUses = ["sync", "sync_no_panic"] := drop_frees_through_sync
 
+/-- the value is released only by that job — never directly by `Drop`, whatever `sync_no_panic` answers — so "freed exactly once,
+after everything accepted earlier" is a statement about the free *job*, which the theorems below are about -/
+theorem frees_only_inside_its_job : dropFreesOutsideJob = 0 := drop_frees_only_inside_its_job
+
 /-- the free closure is an ordinary sync closure: it runs immediately only on an idle AND empty queue,
 otherwise it is queued at the back behind everything accepted before -/
 theorem free_is_ordered (st : QState) (e : Bool) :
